@@ -12,3 +12,10 @@ reg('C02', 'runtime monitoring: arithmetic oracle over an exhaustively executed 
     'compared with the arithmetic definition (exists n>=0: A*n+B = position); exhaustive for that bounded space, '
     'sampled beyond (|A|,|B| <= 10^4).',
     'Trusted: position/arith reference in vlib/refsel.py; spellings limited to the CSS An+B microsyntax.')
+reg('C03', 'runtime monitoring: API-boundary event log checked offline against a reference relation and entry-point agreement laws',
+    'Every return of the six compiled-object methods and six module-level functions (positional and keyword '
+    'namespaces/flags/custom, all limit classes, document and element targets, mixed iterables) is recorded at the '
+    'API boundary and judged by an offline checker: order/identity against the reference relation with the call '
+    'target as scope, and agreement between entry points. ~10^6 recorded calls per quick run.',
+    'Trusted: vlib/refsel.py as the relation; namespaces only exercised on namespace-aware documents; DEBUG output '
+    'on stdout taken as the observable of flags forwarding.')
